@@ -25,7 +25,7 @@ theorem stepAt_next {p : Prog} {a : Ans} {h h' : Head} (hs : stepAt p a h = .nex
     unfold Edge succs
     simp only [hp]
     cases e with
-    | wait => simp at hs
+    | wait evals => simp only at hs; split at hs <;> simp at hs
     | step evals =>
       simp only at hs
       split at hs
@@ -186,7 +186,7 @@ theorem stepAt_atEnd {p : Prog} {a : Ans} {h : Head} (hs : stepAt p a h = .stop 
     exfalso
     simp only [hp] at hs
     cases e with
-    | wait => simp at hs
+    | wait evals => simp only at hs; split at hs <;> simp at hs
     | step evals => simp only at hs; split at hs <;> simp at hs
     | restartLabel => simp at hs
     | goto target => cases a <;> cases target <;> simp at hs
